@@ -176,12 +176,18 @@ CLAIMS['C09'] = {
              "build_ok_unique_novft and the whole-case corollaries case_schedule_independent_novft / case_output_schedule_independent_novft / "
              "case_o2_… / case_o3_…: for every bounded AST case without vftable blocks and every two priority lists the verdict is the same and, "
              "when accepted, the final state and the observations O2 and O3 are EQUAL (non-vacuity: Example.any_prio, a two-module case with a "
-             "cross-module cycle through a pointer). With vftable blocks the key set grows during the run and the statement is false as "
-             "it stands (open finding below), so that fragment stays `_partial`. The unconditional claim is decided on the implementation on every run: all permutations of the "
+             "cross-module cycle through a pointer). WITH vftable blocks (Props/C09Vft.lean, Lemmas/MonoVft.lean): under NoGenRefs / CaseNoGenRefs – nothing in the description "
+             "can see a generated <T>Vftable item by name: no generated path is already a key, a module path or a `use`, and no identifier of any field, enum base, "
+             "vftable or impl function signature equals a generated name (decidable from the input) – attempt_monoV, build_schedule_independent_nogenref, "
+             "build_ok_unique_nogenref, case_schedule_independent_nogenref and case_o2_… / case_o3_schedule_independent_nogenref: every two priority lists give the "
+             "same verdict and, when accepted, EQUAL observations O2 and O3 (the final registries agree as maps; a module's list of definition paths may differ "
+             "in order, which the emitter sorts away – the literal state equality is refuted: case_schedule_independent_nogenref_refuted; which of an error and the "
+             "modelled allocation panic of a huge vftable comes first may also depend on the order: …_refuted_panic, excluded under `Small`). Without NoGenRefs the "
+             "statement is false (the three open findings are exactly inputs that mention a generated name). The unconditional claim is decided on the implementation on every run: all permutations of the "
              "resolution priority (exhaustive up to 5/6 user items) through the pyxis_verif hook, all module-addition orders, repeated "
              "builds in one process, hook-free runs in fresh processes; all variants must be byte-identical or all fail. Known open "
              "finding: a signature naming a generated <T>Vftable type."),
-    'note': COMMON_NOTE + "whole-attempt monotonicity is proved for the vftable-free fragment and remains a hypothesis of the abstract statement for descriptions with vftable blocks; hash seeds are sampled, resolution orders enumerated through the hook.",
+    'note': COMMON_NOTE + "whole-attempt monotonicity is proved for descriptions without vftable blocks and for descriptions with vftable blocks that do not mention generated names; for the rest the statement is false on the current tree (open findings); hash seeds are sampled, resolution orders enumerated through the hook; module-addition order is decided on the implementation (through the API) only.",
     'technique': 'Lean 4 proof (abstract confluence of monotone worklists + monotone readers + sort lemmas) + exhaustive schedule enumeration through a hook + differential correspondence',
 }
 CLAIMS['C10'] = {
